@@ -84,6 +84,7 @@ func (vc *VC) initialState() *State {
 		vc.entryHeapFacts(info, t)
 	}
 	vc.errorSentinels(st)
+	vc.constMapFacts(st)
 	return st
 }
 
@@ -187,8 +188,26 @@ func (vc *VC) runTop() {
 	vc.entry = fr.entry
 	env := vc.topEnv(fr, st, nil)
 	if vc.contract != nil {
+		// package invariants: assumed everywhere except in the package's init,
+		// which has to establish them
+		if fn.Name() != "init" {
+			for _, inv := range vc.specs.pkgInvs[vc.contract.Pkg] {
+				vc.assumeClause(tTrue, env, inv)
+				vc.assumes["package-level variables named in pkginv clauses of "+vc.contract.Pkg+" keep the values given by init (not written afterwards)"] = true
+			}
+		} else if fn.Pkg != nil {
+			// the initialiser is verified for its one real run: the package's
+			// "already initialised" guard is still false
+			if g, ok := fn.Pkg.Members["init$guard"].(*ssa.Global); ok {
+				l := vc.globalLoc(g.Pkg.Pkg.Path(), g.Name(), derefType(g.Type()))
+				vc.assume(tTrue, not(vc.load(st, l)))
+			}
+		}
 		for _, r := range vc.contract.Requires {
 			vc.assumeClause(tTrue, env, r)
+		}
+		for _, u := range vc.contract.Uses {
+			vc.useLemma(fr, env, vc.contract.Pkg, u)
 		}
 		for _, a := range vc.contract.Assumes {
 			g, err := env.evalBool(a.E)
@@ -245,8 +264,16 @@ func (vc *VC) checkPost(fr *Frame, st *State, pc Term, res []Term) {
 		return
 	}
 	env := vc.topEnv(fr, st, res)
+	for _, u := range fc.PostUses {
+		vc.useLemmaGuarded(env, fc.Pkg, u, pc)
+	}
 	for _, e := range fc.Ensures {
 		vc.obligeClause("post", e.Label, site+":"+labelOr(e.Label, "ensures"), pc, env, e)
+	}
+	if fr.fn.Name() == "init" {
+		for _, inv := range vc.specs.pkgInvs[fc.Pkg] {
+			vc.obligeClause("post", inv.Label, site+":"+inv.Label, pc, env, inv)
+		}
 	}
 	for _, fname := range fc.Fresh {
 		if tv, ok := env.vars[fname]; ok {
@@ -254,7 +281,7 @@ func (vc *VC) checkPost(fr *Frame, st *State, pc Term, res []Term) {
 			if ref.Sort == SSlice {
 				ref = sBase(ref)
 			}
-			vc.oblige("post", "fresh", site+":fresh:"+fname, pc, and(le(fr.entry.wm, ref), lt(ref, st.wm)), "fresh "+fname)
+			vc.oblige("post", "fresh", site+":fresh:"+fname, pc, or(eq(ref, tZero), and(le(fr.entry.wm, ref), lt(ref, st.wm))), "fresh "+fname+" (nil or allocated by this call)")
 		}
 	}
 	if fc.HasMod || fc.Pure {
@@ -281,42 +308,6 @@ func (vc *VC) checkPost(fr *Frame, st *State, pc Term, res []Term) {
 
 // ----------------------------------------------------------------- lemmas
 
-// generateLemma turns a lemma into obligations: requires ==> each ensures,
-// over universally quantified parameters (declared as constants).
-func generateLemma(prog *Program, specs *SpecDB, pkgKey string, lm *Lemma) *VC {
-	heapInfo := map[string]*HeapInfo{}
-	var vc *VC
-	for pass := 0; pass < 4; pass++ {
-		vc = newVC(prog, specs, nil, nil, heapInfo)
-		vc.fname = pkgKey + ".lemma." + lm.Name
-		st := vc.initialState()
-		env := &Env{vc: vc, vars: map[string]TV{}, st: st, old: st, pkgKey: pkgKey}
-		if pp := prog.PPkg[modulePrefix+pkgKey]; pp != nil {
-			env.pkg = pp.Types
-		}
-		for i, p := range lm.Params {
-			typ, sort := vc.lemmaParamType(env, lm.PTypes[i])
-			v := Term{quote("l:" + p), sort}
-			vc.lines = append(vc.lines, fmt.Sprintf("(declare-const %s %s)", v.S, sort))
-			if typ != nil {
-				vc.assume(tTrue, vc.typeFacts(v, typ, st.wm))
-			}
-			env.vars[p] = TV{v, typ}
-		}
-		for _, r := range lm.Requires {
-			vc.assumeClause(tTrue, env, r)
-		}
-		vc.cover("requires", tTrue)
-		for _, e := range lm.Ensures {
-			vc.obligeClause("lemma", e.Label, labelOr(e.Label, "ensures"), tTrue, env, e)
-		}
-		if !vc.newHeaps {
-			break
-		}
-	}
-	return vc
-}
-
 func (vc *VC) lemmaParamType(env *Env, ty string) (types.Type, Sort) {
 	ty = strings.TrimSpace(ty)
 	switch ty {
@@ -331,6 +322,14 @@ func (vc *VC) lemmaParamType(env *Env, ty string) (types.Type, Sort) {
 		if tn, ok := obj.(*types.TypeName); ok {
 			return tn.Type(), vc.sortOf(tn.Type())
 		}
+	}
+	if strings.HasPrefix(ty, "[]") {
+		et, _ := vc.lemmaParamType(env, ty[2:])
+		if et == nil {
+			et = tInt
+		}
+		t := types.NewSlice(et)
+		return t, vc.sortOf(t)
 	}
 	ptr := strings.HasPrefix(ty, "*")
 	name := strings.TrimPrefix(ty, "*")
